@@ -352,6 +352,11 @@ IPTR_RULES = [
     Sub(r"\b(\w+)\.(\w+_) = (\w+_);", r"iptr_assign_copy(&\1->\2, &self->\3);", None),
     Sub(r"std::swap\((\w+_), (\w+)\.(\w+_)\);", r"iptr_std_swap(&self->\1, &\2->\3);", None),
     Sub(r"(?<![\w.>])(\w+_) (==|!=) (\w+)\.(\w+_)\b", r"(self->\1.px \2 \3->\4.px)", None),
+    # a smart-pointer member used as an operand of && / || (contextual conversion to bool)
+    Sub(r"(?<![\w.>&])(!?)(\w+_)(\s*(?:&&|\|\|))", r"\1iptr_bool(&self->\2)\3", None),
+    Sub(r"((?:&&|\|\|)\s*)(!?)(\w+_)(?=\s*(?:\)|&&|\|\|))", r"\1\2iptr_bool(&self->\3)", None),
+    Sub(r"(?<![\w.>&])(!?)(\w+)\.(\w+_)(\s*(?:&&|\|\|))", r"\1iptr_bool(&\2->\3)\4", None),
+    Sub(r"((?:&&|\|\|)\s*)(!?)(\w+)\.(\w+_)(?=\s*(?:\)|&&|\|\|))", r"\1\2iptr_bool(&\3->\4)", None),
     Sub(r"\(\s*(!?)(\w+_)\s*\)", r"(\1iptr_bool(&self->\2))", None),
     Sub(r"\(\s*(!?)(\w+)\.(\w+_)\s*\)", r"(\1iptr_bool(&\2->\3))", None),
     Call(r"(?<![\w.>])(\w+_)->(\w+)", "{h2}(iptr_arrow(&self->{h1}))", None),
